@@ -46,3 +46,17 @@ Fixpoint first_threshold {A} (arms : list (rpat * option A)) : option N :=
       match first_threshold rest with Some m => Some (N.min n m) | None => Some n end
   | _ :: rest => first_threshold rest
   end.
+
+(* ---- the dispatch the table names document ------------------------------------------------------------- *)
+(* A table named X_<k> is "the map as of run k (included)": it applies from run k up to the next table's first run.
+   doc_arms builds that dispatch from the first runs alone (table index = position), as arms for `dispatch`. *)
+Fixpoint tag_from (i : N) (l : list N) : list (N * N) :=
+  match l with [] => [] | k :: r => (k, i) :: tag_from (i + 1) r end.
+Fixpoint insert_desc (x : N * N) (l : list (N * N)) : list (N * N) :=
+  match l with
+  | [] => [x]
+  | y :: r => if fst y <=? fst x then x :: l else y :: insert_desc x r
+  end.
+Definition sort_desc (l : list (N * N)) : list (N * N) := fold_right insert_desc [] l.
+Definition doc_arms (first_runs : list N) : list (rpat * option N) :=
+  map (fun ki => (PGe (fst ki), Some (snd ki))) (sort_desc (tag_from 0 first_runs)) ++ [(PAny, None)].
